@@ -20,6 +20,7 @@ import AdaptixModel.Morph.Load
 import AdaptixModel.Morph.Dump
 import AdaptixProofs.Lemmas.MorphModesAgree
 import AdaptixProofs.Lemmas.MorphModesSeq
+import AdaptixProofs.Lemmas.MorphLoadTotal
 
 namespace Adaptix.Morph.C06
 
@@ -191,6 +192,51 @@ theorem disable_first_agree (W : World) (s : Bool) (n n' : Nat) (T : Ty) (d : Va
     ((load W ⟨.disable, s⟩ n T d).isErr = true ∧ (load W ⟨.first, s⟩ n' T d).isErr = true) :=
   modes_df_load_fuels W s n n' T d hD hF hDe hFe
 
+/-! ## totality: the hypotheses `… ≠ .diverge` can always be met (audit A)
+
+  Every agreement theorem above is conditional on runs that "did not diverge".  `load` is a
+  fuel-indexed function, so one has to exclude that such runs do not exist for some type /
+  datum (then the theorems would say nothing about it).  They always exist: for every world
+  whose scalar leaves answer (`LeavesAnswer`, true of every world built from the translated
+  closures: `leaves_answer_generated`), every type and every datum there is ONE fuel from
+  which on no mode diverges (`load_terminates`, proved in `Lemmas/MorphLoadTotal.lean` by
+  induction on the size of the datum and the type).  `modes_agree_eventually` is the property
+  in fuel-free form. -/
+
+/-- **`load` terminates**: one fuel bound for all three modes and both coercion modes. -/
+theorem load_terminates (W : World) (hW : LeavesAnswer W) (T : Ty) (d : Val) :
+    ∃ N, ∀ (cfg : Cfg) (n : Nat), N ≤ n → load W cfg n T d ≠ .diverge :=
+  load_total_all_cfg W hW T d
+
+/-- the leaves the correspondence driver runs (translated closures, any call-site oracle)
+    satisfy `LeavesAnswer` -/
+theorem leaves_answer_generated (oracle : SiteOracle) (strict : Bool) (s : String) (d : Val) :
+    scalarLoadGen oracle strict s d ≠ .diverge :=
+  scalarLoadGen_answers oracle strict s d
+
+/-- **The property, fuel-free.**  For every type and datum, from some fuel on: unless the ALL
+    run ends in a non-LoadError exception, either all three modes return the same value, or
+    all three raise a LoadError and the error of each mode corresponds (`ErrCorr`) to the
+    errors collected under ALL.  No hypothesis about divergence is left. -/
+theorem modes_agree_eventually (W : World) (hW : LeavesAnswer W) (s : Bool) (T : Ty) (d : Val) :
+    ∃ N, ∀ n, N ≤ n → (load W ⟨.all, s⟩ n T d).isEscape = false →
+      (∃ v, ∀ m, load W ⟨m, s⟩ n T d = .ok v) ∨
+      (∃ E, load W ⟨.all, s⟩ n T d = .err E ∧
+        ∀ m, ∃ e, load W ⟨m, s⟩ n T d = .err e ∧ ErrCorr m e E) := by
+  obtain ⟨N, hN⟩ := load_terminates W hW T d
+  refine ⟨N, fun n hn hesc => ?_⟩
+  cases hA : load W ⟨.all, s⟩ n T d with
+  | ok v => exact .inl ⟨v, fun m => all_ok_determines W s m n n T d v hA (hN ⟨m, s⟩ n hn)⟩
+  | err E => exact .inr ⟨E, rfl, fun m => all_err_determines W s m n n T d E hA (hN ⟨m, s⟩ n hn)⟩
+  | escape x => rw [hA] at hesc; simp [Outcome.isEscape] at hesc
+  | diverge => exact absurd hA (hN ⟨.all, s⟩ n hn)
+
+/-- … and from some fuel on the outcome of every mode no longer depends on the fuel. -/
+theorem load_stable (W : World) (hW : LeavesAnswer W) (T : Ty) (d : Val) :
+    ∃ N, ∀ (cfg : Cfg) (n : Nat), N ≤ n → load W cfg n T d = load W cfg N T d := by
+  obtain ⟨N, hN⟩ := load_terminates W hW T d
+  exact ⟨N, fun cfg n hn => load_fuel_mono_le W cfg N n T d hn (hN cfg N (Nat.le_refl _))⟩
+
 /-! ## the hypothesis `AllClean` cannot be dropped
 
   Full-strength statement (what C06 literally says):
@@ -340,6 +386,52 @@ def dhid : Val := .list [.int 0, .list [.list [.int 1]]]
 example : load W₀ ⟨.disable, true⟩ 4 Thid dhid = .ok dhid := by rfl
 example : load W₀ ⟨.first, true⟩ 4 Thid dhid = .ok dhid := by rfl
 example : load W₀ ⟨.all, true⟩ 4 Thid dhid = .escape "ExceptionGroup" := by rfl
+
+/-! ### all hypotheses of the agreement theorems together (audit A) -/
+
+/-- the example world satisfies `LeavesAnswer` -/
+theorem leavesAnswer_witness : LeavesAnswer W₀ := by
+  intro s name d
+  simp only [W₀]
+  split <;> simp
+
+/-- `AllClean` on a FAILING input with two independent faults (`Dict[Never, Never]` on `{1: 2}`) -/
+theorem allClean_witness : AllClean W₀ false Tkv dkv := by
+  have h : load W₀ ⟨.all, false⟩ 3 Tkv dkv =
+      .err (LErr.agg [.mk "TypeLoadError" [.itemKey (.int 1)] (some (.int 1)) [] [],
+                      .mk "TypeLoadError" [.key (.int 1)] (some (.int 2)) [] []]) := by rfl
+  exact ⟨3, by rw [h]; simp, by rw [h]; rfl⟩
+
+/-- `modes_agree_err` / `modes_agree_accept` with every hypothesis discharged, different fuels
+    for the two runs: DISABLE (fuel 3) and FIRST (fuel 5) both fail with a LoadError -/
+example : (load W₀ ⟨.disable, false⟩ 3 Tkv dkv).isErr = (load W₀ ⟨.first, false⟩ 5 Tkv dkv).isErr ∧
+    (load W₀ ⟨.disable, false⟩ 3 Tkv dkv).isEscape = false :=
+  modes_agree_err W₀ false .disable .first 3 5 Tkv dkv allClean_witness
+    (by rw [show load W₀ ⟨.disable, false⟩ 3 Tkv dkv = .err (LErr.leaf "TypeLoadError" (.int 2)) from rfl]; simp)
+    (by rw [show load W₀ ⟨.first, false⟩ 5 Tkv dkv =
+          .err (.mk "TypeLoadError" [.itemKey (.int 1)] (some (.int 1)) [] []) from rfl]; simp)
+
+/-- `List[Tuple[Any, str]]` and a value with two elements -/
+def Tlt : Ty := .iter .list true (.tuple [.any, .scalar "str"])
+def dlt : Val := .list [.tuple [.int 1, .str "a"], .list [.int 2, .str "b"]]
+def vlt : Val := .list [.tuple [.int 1, .str "a"], .tuple [.int 2, .str "b"]]
+
+/-- `modes_agree_ok` with every hypothesis discharged (`AllClean`, the second run did not
+    diverge, the first returned a value), different fuels for the runs -/
+example : load W₀ ⟨.all, true⟩ 7 Tlt dlt = .ok vlt := by
+  have hD : load W₀ ⟨.disable, true⟩ 4 Tlt dlt = .ok vlt := by rfl
+  have hA : load W₀ ⟨.all, true⟩ 4 Tlt dlt = .ok vlt := by rfl
+  have hA7 : load W₀ ⟨.all, true⟩ 7 Tlt dlt ≠ .diverge := by
+    rw [load_fuel_mono_le W₀ _ 4 7 _ _ (by decide) (by rw [hA]; simp), hA]; simp
+  exact modes_agree_ok W₀ true .disable .all 4 7 _ _ _ ⟨4, by rw [hA]; simp, by rw [hA]; rfl⟩ hA7 hD
+
+/-- the fuel-free form instantiated: on `Dict[Never, Never]` / `{1: 2}` the escape premise
+    holds at every fuel ≥ 3, so the conclusion is the second disjunct for all large fuels -/
+example : ∃ N, ∀ n, N ≤ n → (load W₀ ⟨.all, false⟩ n Tkv dkv).isEscape = false →
+      (∃ v, ∀ m, load W₀ ⟨m, false⟩ n Tkv dkv = .ok v) ∨
+      (∃ E, load W₀ ⟨.all, false⟩ n Tkv dkv = .err E ∧
+        ∀ m, ∃ e, load W₀ ⟨m, false⟩ n Tkv dkv = .err e ∧ ErrCorr m e E) :=
+  modes_agree_eventually W₀ leavesAnswer_witness false Tkv dkv
 
 end examples
 
